@@ -621,6 +621,32 @@ mutual
     | _, _ => false
 end
 
+mutual
+  /-- structural equality of JSON documents (key order included) -/
+  def beqJ : J → J → Bool
+    | .null, .null => true
+    | .bool a, .bool b => a == b
+    | .num a, .num b => decide (a = b)
+    | .frac, .frac => true
+    | .str a, .str b => decide (a = b)
+    | .arr as, .arr bs => beqJL as bs
+    | .obj as, .obj bs => beqJK as bs
+    | _, _ => false
+  def beqJL : List J → List J → Bool
+    | [], [] => true
+    | a :: as, b :: bs => beqJ a b && beqJL as bs
+    | _, _ => false
+  def beqJK : List (String × J) → List (String × J) → Bool
+    | [], [] => true
+    | (k, a) :: as, (k', b) :: bs => decide (k = k') && beqJ a b && beqJK as bs
+    | _, _ => false
+end
+
+def beqEnc : Enc → Enc → Bool
+  | .panic, .panic => true
+  | .val a, .val b => beqJ a b
+  | _, _ => false
+
 /-! ### re-annotation: `Pos()`/`End()` are functions of the node -/
 
 mutual
